@@ -22,7 +22,8 @@ type Recorder struct {
 	Writes       int
 	Body         bytes.Buffer
 	HeaderAtSend http.Header
-	FailAfter    int // > 0: Write fails once this many bytes have been accepted (a broken connection)
+	FailAfter    int    // > 0: Write fails once this many bytes have been accepted (a broken connection)
+	OnWrite      func() // called at the start of every Write (a slow connection: the writer blocks)
 	Failed       bool
 }
 
@@ -44,6 +45,9 @@ func (r *Recorder) Write(b []byte) (int, error) {
 		r.HeaderAtSend = r.Hdr.Clone()
 	}
 	r.Writes++
+	if r.OnWrite != nil {
+		r.OnWrite()
+	}
 	if r.FailAfter > 0 && r.Body.Len()+len(b) > r.FailAfter {
 		n := r.FailAfter - r.Body.Len()
 		if n < 0 {
